@@ -457,8 +457,10 @@ def install():
     IkeSa._check_in_states = _wrap_check_in_states()
     for n in ('dispatch_message', 'process_acquire', 'process_expire'):
         setattr(r_ctl.IkeSaController, n, _wrap_entry(r_ctl.IkeSaController, n))
-    for n in ('check_retransmission_timer', 'check_dead_peer_detection_timer', 'check_rekey_ike_sa_timer'):
-        setattr(IkeSa, n, _wrap_entry(IkeSa, n))
+    # every timer / queue entry point the loop calls on an IKE_SA (whatever their number in the tree under test)
+    for n in sorted({'check_retransmission_timer', 'check_dead_peer_detection_timer', 'check_rekey_ike_sa_timer'} | {x for x in dir(IkeSa) if x.startswith('check_') and callable(getattr(IkeSa, x))}):
+        if hasattr(IkeSa, n):
+            setattr(IkeSa, n, _wrap_entry(IkeSa, n))
     _tap_dh(r_crypto.MODPDH, True)
     _tap_dh(r_crypto.ECDH, False)
     logging.indent = 2
